@@ -14,7 +14,8 @@ EXPLANATION = ("Ordering mechanism of the backend. R1: one clock read (ts_now) p
                "'candidate < best', updates best and the chosen context together, ranges over the whole cache without early exit. "
                "R4: every batch loop that dispatches without re-reading the queues evaluates 'no thread has an empty buffer but a "
                "non-empty queue' before each dispatch; that predicate covers both queue kinds. R5: the log call reads the clock "
-               "before the reservation (and the blocking loop) and the header carries exactly that value.")
+               "before the reservation (and the blocking loop) and the header carries exactly that value."
+               ' R4d: the pending-events scan runs over a freshly reloaded thread-context cache. R5f: the TSC converter is published with release and read with acquire.')
 NOT_DECIDED = ("The ordering theorem itself over all schedules (needs a model of time), accuracy of the TSC<->epoch conversion, "
                "backtrace replays (documented exception).")
 ASSUMPTIONS = ["per-thread FIFO (C01-C03)"]
@@ -266,6 +267,13 @@ def r4(ctx, facts, cfg):
            kinds == {"U", "B"} and under_empty_buffer and bool(loops),
            "reports 'pending' for a context with an empty transit buffer whose queue is not empty, for bounded and unbounded queues "
            "alike, over the whole cache (kinds %s, under buffer-empty: %s)" % (sorted(kinds), under_empty_buffer), fn=f)
+    # R4d: ... and the cache it scans is current: a thread that registered since the last reload — and whose first statement may be older
+    # than everything buffered — is part of the answer (the cache is refreshed before the scan)
+    up = cpos(f, r"::_update_active_thread_contexts_cache$")
+    heads = [p for lp in loops for p in (g.positions(lp.get("range")) or g.positions(lp.get("body")) or [])]
+    ctx.ob("C05.R4d", "has_pending_events_for_caching_when_transit_event_buffer_empty:cache-refreshed-first", bool(up) and bool(heads) and
+           not g.exists_path([g.entry_node], heads, avoid_nodes=up),
+           "the thread-context cache is reloaded (when flagged) before it is scanned", fn=f)
 
 
 def r5(ctx, facts, cfg):
@@ -401,6 +409,15 @@ def r5_clock_table(ctx, facts, cfg):
     ctx.ob("C05.R5e", "_populate_transit_event_from_frontend_queue:tsc-clock-exists", ok_e,
            "the TSC converter is created on the backend exactly when it does not exist yet, and every path to the conversion has either "
            "seen it or created it (no statement of a Tsc logger is stamped through a null converter)", fn=df)
+    # R5f: the converter is read by other threads (BackendTscClock::now -> time_since_epoch): it is published with a release store and
+    # picked up with an acquire load, so a thread that sees the pointer sees the calibrated object behind it
+    rel = bool(mk) and all(atomic_op(n).get("order") in ("release", "seq_cst", "acq_rel") for n in mk)
+    tse = facts.need(BW + "time_since_epoch", cfg)[0]
+    lds = [atomic_op(n) for n in tse.walk() if (atomic_op(n) or {}).get("kind") == "load" and is_this_field(atomic_op(n)["obj"], "_rdtsc_clock")]
+    acq = bool(lds) and all(a.get("order") in ("acquire", "seq_cst", "acq_rel") for a in lds)
+    ctx.ob("C05.R5f", "BackendWorker:tsc-converter-published", rel and acq,
+           "the converter pointer is stored with release (%s) and loaded by time_since_epoch — callable from any thread — with acquire (%s)"
+           % ([atomic_op(n).get("order") for n in mk], [a.get("order") for a in lds]), fn=tse)
     ctx.ob("C05.R5d", "_populate_transit_event_from_frontend_queue:tsc-converted-exactly", ok,
            "the record's timestamp is replaced by RdtscClock::time_since_epoch(timestamp) exactly for loggers whose clock source is Tsc, "
            "on every path before it is compared or buffered (cycle counts and epoch nanoseconds are never mixed in the ordering)", fn=df)
